@@ -182,22 +182,18 @@ impl BufferManager {
         size: usize,
         region: MemoryRegion,
     ) -> Option<MemoryGrant> {
-        // Check if we can allocate
-        let current = self.allocated.load(Ordering::Relaxed);
-
-        if current + size > self.hard_limit {
+        // Reserve atomically: checking and adding in two steps lets concurrent callers
+        // all pass the check and push `allocated` past the hard limit
+        if !self.try_reserve(size) {
             // Try eviction first
             self.run_eviction_cycle(true);
 
             // Check again
-            let current = self.allocated.load(Ordering::Relaxed);
-            if current + size > self.hard_limit {
+            if !self.try_reserve(size) {
                 return None;
             }
         }
 
-        // Perform allocation
-        self.allocated.fetch_add(size, Ordering::Relaxed);
         self.region_allocated[region.index()].fetch_add(size, Ordering::Relaxed);
 
         // Check pressure and potentially trigger background eviction
@@ -291,6 +287,17 @@ impl BufferManager {
 
     // === Internal methods ===
 
+    /// Adds `size` to the total if that keeps it within the hard limit (one atomic step).
+    fn try_reserve(&self, size: usize) -> bool {
+        self.allocated
+            .fetch_update(Ordering::Relaxed, Ordering::Relaxed, |current| {
+                current
+                    .checked_add(size)
+                    .filter(|total| *total <= self.hard_limit)
+            })
+            .is_ok()
+    }
+
     fn compute_pressure_level(&self, current: usize) -> PressureLevel {
         if current >= self.hard_limit {
             PressureLevel::Critical
@@ -366,19 +373,15 @@ impl GrantReleaser for BufferManager {
     }
 
     fn try_allocate_raw(&self, size: usize, region: MemoryRegion) -> bool {
-        let current = self.allocated.load(Ordering::Relaxed);
-
-        if current + size > self.hard_limit {
+        if !self.try_reserve(size) {
             // Try eviction
             self.run_eviction_cycle(true);
 
-            let current = self.allocated.load(Ordering::Relaxed);
-            if current + size > self.hard_limit {
+            if !self.try_reserve(size) {
                 return false;
             }
         }
 
-        self.allocated.fetch_add(size, Ordering::Relaxed);
         self.region_allocated[region.index()].fetch_add(size, Ordering::Relaxed);
         true
     }
